@@ -109,6 +109,7 @@ func runC04(c *Ctx) {
 	c04TimeFormats(c)
 	c04BytesFormats(c)
 	c04RandomTypes(c)
+	runC04L3(c) // tree-level whole-value round trip vs the L3 model (Props/C04L3)
 }
 
 // ---------------------------------------------------------------- the round-trip predicate
